@@ -150,7 +150,7 @@ func vTypeEq(a, b *Type) bool {
 // selector each, case-split by the solver into concrete texts), ParseMessageDefinition returns the expected tree,
 // or an error when a type is missing or the references form a cycle - it never recurses without bound (the engine
 // reports recursion beyond its unwinding bound, natively a stack overflow that kills the process).
-// params: k (menu size used), comments (1: interleave comment, constant and blank lines)
+// params: k (menu size used), comments (1: interleave comment, constant and blank lines), twice (1: the root field type is used twice)
 func VC19Resolve() {
 	k := vParam("k")
 	sel := make([]int, 3)
@@ -163,11 +163,21 @@ func VC19Resolve() {
 	if vParam("comments") == 1 {
 		extra = "# a comment\n\nint32 CONST=1 # constant\n  \n"
 	}
-	text := extra + vTypeMenu[sel[0]] + " r\n" +
-		"================================================================================\nMSG: p/A\n" + extra + vTypeMenu[sel[1]] + "   a # trailing comment\n" +
+	// twice=1: the root uses its field type a second time (field "r2"): a repeated use of one nested type is not a cycle
+	second := ""
+	if vParam("twice") == 1 {
+		second = vTypeMenu[sel[0]] + " \t r2 # again = same type\n" // (space and tab; the reference tools split on spaces)
+	}
+	text := extra + vTypeMenu[sel[0]] + " r\n" + second +
+		"================================================================================\nMSG: p/A\n" + extra + vTypeMenu[sel[1]] + "   a # trailing comment, with an = sign\n" +
 		"================================================================================\nMSG: p/B\n" + vTypeMenu[sel[2]] + " b\n" +
 		"================================================================================\nMSG: std_msgs/Header\nuint32 seq\n"
 	exp, expErr := vExpectFields(sel, 0, make([]bool, 4))
+	if !expErr && vParam("twice") == 1 {
+		f2 := exp[0]
+		f2.Name = "r2"
+		exp = append(exp, f2)
+	}
 	got, err := ParseMessageDefinition("p", []byte(text))
 	if expErr {
 		vAssert(err != nil, "a missing type or a reference cycle is reported as an error")
